@@ -51,6 +51,22 @@ def rule_inc_gate(check):
             if a[0] == "call" and a[1] == "is_modified" and a[4] is True and _is_param_place(f, a[3]):
                 ok = True
         check.expect(ok, R, "%s/%s" % (R, f.name), hir.loc(n), "inc guarded by the status parameter == Modified", "inc is not guarded by `<status parameter> == Status::Modified` (%s): untouched operations are counted" % ("; ".join(why) or "no such guard"))
+        # ... and by nothing else: every Modified result that reaches this function is counted
+        extra = []
+        for a in atoms:
+            if a[0] == "eq":
+                sides = [x for x in (a[1], a[2]) if isinstance(x, str)]
+                if any(s_.endswith("Status::Modified") for s_ in sides) and a[3] is True:
+                    continue
+                if any(s_.endswith("Status::Cancelled") for s_ in sides) and a[3] is False:
+                    continue  # a cancelled file reports nothing at all (its rewrite is refused)
+            if a[0] == "variant" and a[3] is True and isinstance(a[2], str) and a[2].endswith("Status::Modified"):
+                continue
+            if a[0] == "call" and a[1] == "is_modified" and a[4] is True:
+                continue
+            e = a[-1] if isinstance(a[-1], dict) else None
+            extra.append(hir.describe(e.get("e", e) if e and "k" not in e else e)[:80] if e else str(a[:3]))
+        check.expect(not extra, R, "%s/%s/only-gate" % (R, f.name), hir.loc(n), "no other condition decides whether a Modified result is counted", "inc is additionally gated by %s: a hook can be emitted without being counted" % "; ".join(extra))
 
 
 def rule_count_once(check):
@@ -143,8 +159,18 @@ def rule_tags(check):
     def norm(o):
         root, proj = o
         segs = []
+        skip0 = False
         for q in proj:
+            if skip0 and q == "0":
+                skip0 = False
+                continue
+            skip0 = False
             if q == "[]":
+                continue
+            if q == "Some.0":  # Option wrappers on the way (as_member(), as_ident()) are not part of the place
+                continue
+            if q == "Some":
+                skip0 = True
                 continue
             if segs and segs[-1] == q:
                 continue
